@@ -14,10 +14,11 @@ def build():
 
 
 def chain_consts(MaxN, MaxSteps, Works=(0, 1, 2), SharedRoots=False, MaxFuture=1, MaxForb=0, MaxResub=0, MaxRestart=0,
-                 Deviations=(), Emit="none", QKinds=()):
+                 Deviations=(), Emit="none", QKinds=(), StepQ=()):
     return {"MaxN": MaxN, "Works": c.tla_set(Works), "SharedRoots": "TRUE" if SharedRoots else "FALSE",
             "MaxFuture": MaxFuture, "MaxForb": MaxForb, "Deviations": c.tla_set(Deviations), "MaxSteps": MaxSteps,
-            "MaxResub": MaxResub, "MaxRestart": MaxRestart, "Emit": '"%s"' % Emit, "QKinds": c.tla_set(QKinds)}
+            "MaxResub": MaxResub, "MaxRestart": MaxRestart, "Emit": '"%s"' % Emit, "QKinds": c.tla_set(QKinds),
+            "StepQ": c.tla_set(StepQ)}
 
 
 def tlc_props(consts, invariants, properties=(), view="StateView", timeout=1800, coverage=False):
